@@ -170,12 +170,17 @@ pub struct Menu {
     pub junk: Vec<JunkKind>,
     /// Replace every injected junk datagram by one the receive path discards at once.
     pub inert_junk: bool,
+    /// Also offer every junk datagram as arriving at the END of the wait (timeout minus 1 us of
+    /// virtual time passes first) instead of at once.
+    pub late_junk: bool,
     /// Socket faults (C09): errno values offered at send-side calls / receive-side calls.
     pub send_faults: Vec<i32>,
     pub bind_faults: Vec<i32>,
     pub connect_faults: Vec<i32>,
     pub recv_faults: Vec<i32>,
     pub select_faults: Vec<i32>,
+    /// Faults of the per-probe TCP socket at receive time (take_error / peer_addr / shutdown).
+    pub stream_faults: Vec<i32>,
     /// Offer the Windows-style answer (HostUnreachable + icmp_error_info) for expired TCP probes.
     pub tcp_host_unreachable: bool,
 }
@@ -202,6 +207,8 @@ pub enum JunkKind {
     NeverSent(i32),
     /// Well-formed quotation naming the next unissued sequence.
     NextUnissued,
+    /// Unrelated ICMP traffic (an Echo Request from someone pinging this host): decodes to nothing.
+    Inert,
 }
 
 #[derive(Debug, Clone, Default)]
@@ -885,6 +892,11 @@ impl World {
                         out.push((*k, self.resps[d.resp].for_sent, JunkSrc::Resp(d.resp)));
                     }
                 }
+                JunkKind::Inert => {
+                    if let Some(last) = self.sent.last() {
+                        out.push((*k, last.idx, JunkSrc::Plan(ForgePlan::default())));
+                    }
+                }
                 JunkKind::Late => {
                     if self.round > 0 {
                         // a response generated for a probe of the previous round (delivered or not)
@@ -1001,7 +1013,7 @@ impl World {
                     }
                 }
             }
-            JunkKind::Duplicate | JunkKind::Late => return None,
+            JunkKind::Duplicate | JunkKind::Late | JunkKind::Inert => return None,
         }
         Some(plan)
     }
@@ -1056,6 +1068,7 @@ impl World {
             Dup,
             Loss,
             Junk(usize),
+            JunkLate(usize),
         }
         let mut alts: Vec<Alt> = vec![];
         if p > 0 {
@@ -1084,6 +1097,11 @@ impl World {
         };
         for j in 0..junk.len() {
             alts.push(Alt::Junk(j));
+        }
+        if m.late_junk {
+            for j in 0..junk.len() {
+                alts.push(Alt::JunkLate(j));
+            }
         }
         let c = self.chooser.choose(alts.len());
         match alts[c].clone() {
@@ -1133,19 +1151,22 @@ impl World {
                     true
                 }
             }
-            Alt::Junk(j) => {
+            Alt::Junk(j) | Alt::JunkLate(j) => {
+                if matches!(alts[c], Alt::JunkLate(_)) {
+                    vclock::advance((timeout.as_nanos() as u64).saturating_sub(1_000));
+                }
                 self.n_junk += 1;
                 let (kind, for_sent, src) = junk[j].clone();
                 let (bytes, from) = match &src {
                     JunkSrc::Resp(r) => (self.resps[*r].bytes.clone(), self.resps[*r].from),
                     JunkSrc::Plan(p) => self.forge_build(&self.sent[for_sent], p),
                 };
-                let bytes = if self.cfg.menu.inert_junk {
+                let bytes = if self.cfg.menu.inert_junk || kind == JunkKind::Inert {
                     self.inert_bytes()
                 } else {
                     bytes
                 };
-                let from = if self.cfg.menu.inert_junk { self.cfg.dst } else { from };
+                let from = if self.cfg.menu.inert_junk || kind == JunkKind::Inert { self.cfg.dst } else { from };
                 let id = self.push_resp(for_sent, from, RespKind::TimeExceeded(0), bytes, false, None, None);
                 vclock::advance(self.cfg.delta_ns);
                 self.deliver(id, Some(kind));
@@ -1406,12 +1427,36 @@ impl Socket for SimSocket {
         })
     }
     fn shutdown(&mut self) -> IoResult<()> {
-        Ok(())
+        with(|w| {
+            let menu = w.cfg.menu.stream_faults.clone();
+            if let Some(e) = w.fault(self.id, "shutdown", &menu) {
+                return Err(IoError::Other(io_err(e), IoOperation::Shutdown));
+            }
+            Ok(())
+        })
     }
     fn peer_addr(&mut self) -> IoResult<Option<SocketAddr>> {
-        with(|w| Ok(w.socks[self.id].connected))
+        with(|w| {
+            let menu = w.cfg.menu.stream_faults.clone();
+            if let Some(e) = w.fault(self.id, "peer_addr", &menu) {
+                return Err(IoError::Other(io_err(e), IoOperation::PeerAddr));
+            }
+            Ok(w.socks[self.id].connected)
+        })
     }
     fn take_error(&mut self) -> IoResult<Option<SocketError>> {
+        let faulted = with(|w| {
+            let menu = w.cfg.menu.stream_faults.clone();
+            let f = w.fault(self.id, "take_error", &menu);
+            if f.is_some() {
+                // the tracer abandons this socket; whatever it would have reported is never seen
+                w.socks[self.id].tcp = Tcp::Done;
+            }
+            f
+        });
+        if let Some(e) = faulted {
+            return Err(IoError::Other(io_err(e), IoOperation::TakeError));
+        }
         with(|w| match w.socks[self.id].tcp.clone() {
             Tcp::InFlight { kind: Some(kind), sent, from, .. } => {
                 w.socks[self.id].tcp = Tcp::Done;
